@@ -5,6 +5,7 @@
 From Coq Require Import List NArith ZArith Bool Ascii String.
 From Authlib Require Import Base.Bytes Base.Base64 Base.BigEndian Base.PyVal Base.Url Base.Percent Base.Utf8 Base.Form.
 From Authlib Require Proofs.UrlP.
+From Authlib Require Import Extract.DispatchAR.
 From Authlib Require Import Model.JWK Model.Claims Spec.ClaimsSpec Model.Resource Model.Scope Model.ClientAuth Model.Metadata Spec.MetadataSpec Model.Registration Model.Wire Model.OAuth1Sig Model.Authorize Model.CodeFlow Model.TokenLife.
 Import ListNotations.
 Open Scope string_scope.
@@ -368,6 +369,7 @@ Definition dispatch_tokenlife (fn : string) (a : pv) : option pv :=
                                                         PBool (k_ref_rev t)]) (l_toks fin)))])
   else None.
 
+
 Definition dispatch (fn : string) (a : pv) : pv :=
   if String.eqb fn "oracle_echo" then oracle "echo" a else
   match dispatch_jwk fn a with
@@ -408,6 +410,9 @@ Definition dispatch (fn : string) (a : pv) : pv :=
   | None =>
   match dispatch_tokenlife fn a with
   | Some r => r
+  | None =>
+  match dispatch_asyncrefresh fn a with
+  | Some r => r
   | None => err ("unknown function " ++ fn)
-  end end end end end end end end end end end end end.
+  end end end end end end end end end end end end end end.
 End D.
